@@ -133,6 +133,19 @@ fn mips_words(full: bool) -> Vec<u32> {
             }
         }
     }
+    // SPECIAL / SPECIAL2 / SPECIAL3: the shamt field selects the operation in some function codes (BSHFL: seb,
+    // seh, wsbh; srl/rotr, ...): every shamt x every function code
+    for op in [0u32, 0x1c, 0x1f] {
+        for (rs, rt) in [(1u32, 2u32), (0, 0)] {
+            for sh in 0..32u32 {
+                for f in 0..64u32 {
+                    v.push((op << 26) | (rs << 21) | (rt << 16) | (1 << 11) | (sh << 6) | f);
+                }
+            }
+        }
+    }
+    v.sort_unstable();
+    v.dedup();
     v
 }
 fn ppc_words(full: bool) -> Vec<u32> {
@@ -181,23 +194,56 @@ fn ppc_words(full: bool) -> Vec<u32> {
     }
     v
 }
+/// A64: fields that select an operand KIND or width are enumerated, register / immediate VALUE fields take
+/// boundary values:
+///  (1) every value of bits 31..21 (sf, op, S, class, opc, size, shift, N, ...) x boundary Rm / bits 15..10 / Rn / Rd;
+///  (2) every value of bits 31..21 x EVERY value of bits 15..10 (option + imm3 of the extended-register forms, opcode
+///      of the 1/2/3-source and conditional classes, index mode / option / S of the loads and stores, SIMD opcodes)
+///      x two register patterns;
+///  (3) add/sub (extended register): sf x op x S x opt x all 8 options x all 8 imm3 x all 12 register patterns;
+///  (4) add/sub and logical (shifted register): every bits 31..21 of the class x imm6 in {0,1,31,32,63} x 12 patterns.
 fn a64_words(full: bool) -> Vec<u32> {
     let rms: &[u32] = if full { &[0, 2, 31, 1, 30] } else { &[0, 2, 31] };
     let mids: &[u32] = if full { &[0, 3, 0x3f, 8, 0x10, 0x20, 1, 2, 0x1f, 0x30] } else { &[0, 3, 0x3f, 8, 0x10] };
     let rns: &[u32] = if full { &[0, 31, 1] } else { &[0, 31] };
     let rds: &[u32] = if full { &[1, 31, 0] } else { &[1, 31] };
     let mut v = vec![];
+    let w = |top: u32, rm: u32, mid: u32, rn: u32, rd: u32| (top << 21) | (rm << 16) | (mid << 10) | (rn << 5) | rd;
     for top in 0..2048u32 {
         for rm in rms {
             for mid in mids {
                 for rn in rns {
                     for rd in rds {
-                        v.push((top << 21) | (rm << 16) | (mid << 10) | (rn << 5) | rd);
+                        v.push(w(top, *rm, *mid, *rn, *rd));
+                    }
+                }
+            }
+        }
+        let pats: &[(u32, u32, u32)] = if full { &[(2, 0, 1), (31, 31, 31), (0, 1, 0), (1, 31, 2)] } else { &[(2, 0, 1), (31, 31, 31)] };
+        for mid in 0..64u32 {
+            for (rm, rn, rd) in pats {
+                v.push(w(top, *rm, mid, *rn, *rd));
+            }
+        }
+        let class = (top >> 3) & 0x1f; // bits 28..24
+        let ext = class == 0b01011 && top & 1 == 1;
+        let shifted = (class == 0b01011 || class == 0b01010) && !ext;
+        if ext || shifted {
+            let imm6: &[u32] = &[0, 1, 31, 32, 63];
+            let all: Vec<u32> = (0..64).collect();
+            for mid in if ext { &all[..] } else { imm6 } {
+                for rm in [0u32, 2, 31] {
+                    for rn in [0u32, 31] {
+                        for rd in [1u32, 31] {
+                            v.push(w(top, rm, *mid, rn, rd));
+                        }
                     }
                 }
             }
         }
     }
+    v.sort_unstable();
+    v.dedup();
     v
 }
 
@@ -209,9 +255,13 @@ const X86_SUFFIX: [&[u8]; 28] = [
     &[0x08], &[0x10], &[0x18], &[0x20], &[0x28], &[0x30], &[0x38], &[0xc8], &[0xd0], &[0xe0], &[0xe8], &[0xf0], &[0xf8],
     &[0x01, 0x00, 0x00, 0x00], &[0xfe, 0xff, 0xff, 0xff], &[0x80, 0x00, 0x00, 0x80],
 ];
-const X86_PREFIX: [&[u8]; 12] = [
-    &[], &[0x66], &[0xf3], &[0xf2], &[0x67], &[0x48], &[0xf0], &[0x2e], &[0x66, 0x48], &[0x41], &[0x4c], &[0xf3, 0x48],
+const X86_PREFIX: [&[u8]; 14] = [
+    &[], &[0x67], &[0x66], &[0xf3], &[0xf2], &[0x48], &[0xf0], &[0x2e], &[0x66, 0x48], &[0x41], &[0x4c], &[0xf3, 0x48],
+    &[0x67, 0x48], &[0x67, 0x66],
 ];
+/// forms whose destination width / address width interplay matters: lea, mov, add, movzx/movsx/movsxd, xchg, cmp
+const X86_ADDR_OPS: [u32; 14] = [0x8d, 0x8b, 0x89, 0x03, 0x01, 0x8a, 0x88, 0x63, 0x87, 0x3b, 0x1b6, 0x1b7, 0x1be, 0x1bf];
+const X86_ADDR_PFX: [&[u8]; 6] = [&[0x67], &[0x67, 0x66], &[0x67, 0x48], &[0x67, 0x4c], &[0x66, 0x67], &[0x67, 0x66, 0x48]];
 fn x86_string(op: u32, sfx: usize, pfx: usize, pad: u8, len: usize) -> Vec<u8> {
     let mut b: Vec<u8> = X86_PREFIX[pfx].to_vec();
     if op >= 256 {
@@ -227,23 +277,43 @@ fn x86_string(op: u32, sfx: usize, pfx: usize, pad: u8, len: usize) -> Vec<u8> {
 }
 /// quick: per (opcode, suffix) the empty prefix and one rotating prefix, the full string and one rotating
 /// truncation; full: everything
+/// quick: per (opcode, suffix) no prefix, the address-size prefix and one rotating other prefix, each as the full
+/// string and one rotating truncation; full: every prefix x every truncation.  Then (both tiers) the
+/// address-size-prefixed lea / mov / add / movzx / ... forms with 16/32/64-bit destinations x every suffix.
 fn x86_count(full: bool) -> u64 {
-    if full { 512 * 28 * 12 * 15 } else { 512 * 28 * 2 * 2 }
+    (if full { 512 * 28 * 14 * 15 } else { 512 * 28 * 3 * 2 }) + (X86_ADDR_OPS.len() * X86_ADDR_PFX.len() * 28) as u64
 }
 fn x86_at(full: bool, k: u64) -> Vec<u8> {
+    let main = if full { 512 * 28 * 14 * 15 } else { 512 * 28 * 3 * 2 };
+    if k >= main {
+        let k = (k - main) as usize;
+        let sfx = k % 28;
+        let pfx = k / 28 % X86_ADDR_PFX.len();
+        let op = X86_ADDR_OPS[k / 28 / X86_ADDR_PFX.len()];
+        let mut b: Vec<u8> = X86_ADDR_PFX[pfx].to_vec();
+        if op >= 256 {
+            b.push(0x0f);
+        }
+        b.push((op & 0xff) as u8);
+        b.extend_from_slice(X86_SUFFIX[sfx]);
+        while b.len() < 15 {
+            b.push(0x90);
+        }
+        return b;
+    }
     if full {
         let len = (k % 15) as usize + 1;
-        let pfx = (k / 15 % 12) as usize;
-        let sfx = (k / 180 % 28) as usize;
-        let op = (k / 5040) as u32;
+        let pfx = (k / 15 % 14) as usize;
+        let sfx = (k / 210 % 28) as usize;
+        let op = (k / 5880) as u32;
         x86_string(op, sfx, pfx, if mix(k) % 4 == 0 { 0x00 } else { 0x90 }, len)
     } else {
         let t = k % 2;
-        let p = k / 2 % 2;
-        let sfx = (k / 4 % 28) as usize;
-        let op = (k / 112) as u32;
+        let p = k / 2 % 3;
+        let sfx = (k / 6 % 28) as usize;
+        let op = (k / 168) as u32;
         let rot = (op as u64 + sfx as u64 * 5) as u64;
-        let pfx = if p == 0 { 0 } else { 1 + (rot % 11) as usize };
+        let pfx = match p { 0 => 0, 1 => 1, _ => 2 + (rot % 12) as usize };
         let len = if t == 0 { 15 } else { 1 + ((rot * 7 + p * 3) % 14) as usize };
         x86_string(op, sfx, pfx, 0x90, len)
     }
@@ -271,6 +341,13 @@ fn corpus() -> Vec<(usize, u64, Vec<u8>, &'static str)> {
         (4, 0x1000, be(0x7c632051), "corpus:ppc-subf."),
         (4, 0x1000, be(0x41820008), "corpus:ppc-beq"),
         (4, 0x1000, be(0x41820004), "corpus:ppc-beq-to-fallthrough"),
+        (1, 0x1000, vec![0x67, 0x48, 0x8d, 0x04, 0x08], "corpus:amd64-lea-rax-addr32"),
+        (0, 0x1000, vec![0x67, 0x8d, 0x00], "corpus:x86-lea-eax-addr16"),
+        (1, 0x1000, vec![0x67, 0x8d, 0x04, 0x08], "corpus:amd64-lea-eax-addr32"),
+        (1, 0x1000, vec![0x67, 0x66, 0x8d, 0x04, 0x08], "corpus:amd64-lea-ax-addr32"),
+        (5, 0x1000, le(0x0b226020), "corpus:a64-add-w-uxtx"),
+        (5, 0x1000, le(0x6b22e020), "corpus:a64-subs-w-sxtx"),
+        (5, 0x1000, le(0x8b226020), "corpus:a64-add-x-uxtx"),
         (0, 0x1000, vec![0x74, 0x00], "corpus:x86-je+0"),
         (1, 0x1000, vec![0x74, 0x00], "corpus:x86-je+0"),
         (0, 0x1000, vec![0x0f, 0x84, 0, 0, 0, 0], "corpus:x86-je-rel32+0"),
@@ -599,6 +676,7 @@ struct Outcome {
     hashes: Vec<u64>,
     term: String,
     size: usize,
+    kf: Vec<String>,
 }
 thread_local! { static PANIC_AT: std::cell::RefCell<String> = std::cell::RefCell::new(String::new()); }
 fn panic_site() -> String {
@@ -612,20 +690,20 @@ fn run_input(i: &Input) -> Outcome {
             let ta = dump(&ra, &mut Interner::new());
             let tb = dump(&rb, &mut Interner::new());
             let size = ra.instructions().iter().map(|(_, g)| g.blocks().iter().map(|b| b.instructions().len()).sum::<usize>()).sum();
-            Outcome { kind: "ok", relift: ta == tb, hashes: shapes(&ra), term: String::new(), size }
+            Outcome { kind: "ok", relift: ta == tb, hashes: shapes(&ra), term: String::new(), size, kf: kf_tags(i, Some(&ra)) }
         }
         (Ok(Err(ea)), Ok(Err(eb))) => {
             let same = format!("{:?}", ea) == format!("{:?}", eb);
-            Outcome { kind: "err", relift: same, hashes: vec![1], term: "LErr".into(), size: 0 }
+            Outcome { kind: "err", relift: same, hashes: vec![1], term: "LErr".into(), size: 0, kf: vec![] }
         }
-        (Err(_), Err(_)) => Outcome { kind: "panic", relift: true, hashes: vec![fnv(&panic_site())], term: format!("LPanic (* {} *)", panic_site()), size: 0 },
-        (Err(_), _) | (_, Err(_)) => Outcome { kind: "panic", relift: false, hashes: vec![fnv(&panic_site())], term: format!("LPanic (* {} *)", panic_site()), size: 0 },
-        _ => Outcome { kind: "mixed", relift: false, hashes: vec![4], term: "LErr".into(), size: 0 },
+        (Err(_), Err(_)) => Outcome { kind: "panic", relift: true, hashes: vec![fnv(&panic_site())], term: format!("LPanic (* {} *)", panic_site()), size: 0, kf: kf_tags(i, None) },
+        (Err(_), _) | (_, Err(_)) => Outcome { kind: "panic", relift: false, hashes: vec![fnv(&panic_site())], term: format!("LPanic (* {} *)", panic_site()), size: 0, kf: kf_tags(i, None) },
+        _ => Outcome { kind: "mixed", relift: false, hashes: vec![4], term: "LErr".into(), size: 0, kf: vec![] },
     }
 }
 /// coverage keys of an outcome: (translator, shape hash, relift flag, known-finding tags)
-fn cover_keys(i: &Input, kind: &str, relift: bool, hashes: &[u64]) -> Vec<(usize, u64, bool, String)> {
-    let kf = kf_tags(i).join(",");
+fn cover_keys(i: &Input, kind: &str, relift: bool, hashes: &[u64], kf: &[String]) -> Vec<(usize, u64, bool, String)> {
+    let kf = kf.join(",");
     let salt = fnv(kind);
     hashes.iter().map(|h| (i.tr, h ^ salt, relift, kf.clone())).collect()
 }
@@ -649,12 +727,13 @@ fn child_main(args: &Args) {
         out.flush().unwrap();
         let o = run_input(&i);
         let mut new = false;
-        for k in cover_keys(&i, o.kind, o.relift, &o.hashes) {
+        for k in cover_keys(&i, o.kind, o.relift, &o.hashes, &o.kf) {
             new |= seen.insert(k);
         }
         let hs = o.hashes.iter().map(|h| format!("{:x}", h)).collect::<Vec<_>>().join(",");
         let _ = new;
-        writeln!(out, "R {} {} {} {} {} {}", idx, o.kind, o.relift as u8, hs, o.size, if o.term.is_empty() { "-" } else { &o.term }).unwrap();
+        let kf = if o.kf.is_empty() { "-".to_string() } else { o.kf.join(",") };
+        writeln!(out, "R {} {} {} {} {} {} {}", idx, o.kind, o.relift as u8, hs, o.size, kf, if o.term.is_empty() { "-" } else { &o.term }).unwrap();
     }
     out.flush().unwrap();
 }
@@ -666,6 +745,7 @@ struct Rec {
     relift: bool,
     hashes: Vec<u64>,
     size: usize,
+    kf: Vec<String>,
     term: Option<String>,
 }
 /// run inputs [lo, hi) in child processes; a dead or stalled child yields an `abort` / `timeout` record for
@@ -700,7 +780,7 @@ fn run_range(exe: &std::path::Path, args: &Args, lo: u64, hi: u64, stall: Durati
         loop {
             match rx.recv_timeout(stall) {
                 Ok(l) => {
-                    let mut p = l.splitn(7, ' ');
+                    let mut p = l.splitn(8, ' ');
                     match p.next() {
                         Some("S") => inflight = Some(p.next().unwrap().parse().unwrap()),
                         Some("R") => {
@@ -709,8 +789,9 @@ fn run_range(exe: &std::path::Path, args: &Args, lo: u64, hi: u64, stall: Durati
                             let relift = p.next().unwrap() == "1";
                             let hashes: Vec<u64> = p.next().unwrap().split(',').map(|h| u64::from_str_radix(h, 16).unwrap()).collect();
                             let size: usize = p.next().unwrap().parse().unwrap();
+                            let kf: Vec<String> = match p.next().unwrap() { "-" => vec![], x => x.split(',').map(|y| y.to_string()).collect() };
                             let t = p.next().unwrap();
-                            recs.push(Rec { idx, kind, relift, hashes, size, term: if t == "-" { None } else { Some(t.to_string()) } });
+                            recs.push(Rec { idx, kind, relift, hashes, size, kf, term: if t == "-" { None } else { Some(t.to_string()) } });
                             inflight = None;
                             next = idx + 1;
                         }
@@ -733,7 +814,7 @@ fn run_range(exe: &std::path::Path, args: &Args, lo: u64, hi: u64, stall: Durati
         if clean && inflight.is_none() {
             if next < hi {
                 // the child ended early without an in-flight input: treat the next input as the culprit
-                recs.push(Rec { idx: next, kind: "abort".into(), relift: true, hashes: vec![5], size: 0, term: Some("LAbort".into()) });
+                recs.push(Rec { idx: next, kind: "abort".into(), relift: true, hashes: vec![5], size: 0, kf: vec![], term: Some("LAbort".into()) });
                 next += 1;
             }
             continue;
@@ -741,51 +822,108 @@ fn run_range(exe: &std::path::Path, args: &Args, lo: u64, hi: u64, stall: Durati
         let culprit = inflight.unwrap_or(next);
         let (kind, term, hash) = if verdict == Some("timeout") { ("timeout", "LTimeout", 6u64) } else { ("abort", "LAbort", 5u64) };
         // every abort / timeout is its own case: the hash is salted with the input index
-        recs.push(Rec { idx: culprit, kind: kind.into(), relift: true, hashes: vec![hash ^ mix(culprit)], size: 0, term: Some(term.into()) });
+        recs.push(Rec { idx: culprit, kind: kind.into(), relift: true, hashes: vec![hash ^ mix(culprit)], size: 0, kf: vec![], term: Some(term.into()) });
         next = culprit + 1;
     }
     recs
 }
 
-/// known-finding classes: narrow executable predicates on the INPUT (translator + byte patterns).  A case of a
-/// class is reported as KNOWN-FINDING only when its oracle fails; inputs of a class that lift correctly are
-/// unaffected.  The x86 predicates are byte-pattern searches over the whole string (a block may hold the
-/// offending instruction anywhere), deliberately syntactic: no decoder is involved.
-fn kf_tags(i: &Input) -> Vec<String> {
-    let mut t = vec![];
-    let b = &i.bytes;
+/// head of one x86 instruction at a known instruction start: legacy prefixes, REX (amd64), opcode, ModRM
+struct X86Head {
+    p66: bool,
+    rex_w: bool,
+    op: u16, // 0x0fxx for the two-byte map
+    modrm: Option<u8>,
+}
+fn x86_head(b: &[u8], amd64: bool) -> Option<X86Head> {
+    let mut k = 0;
+    let mut p66 = false;
+    let mut rex_w = false;
+    // legacy prefixes in any order; in 64-bit mode a REX byte counts only when it immediately precedes the opcode
+    while k < b.len() {
+        if matches!(b[k], 0x66 | 0x67 | 0xf0 | 0xf2 | 0xf3 | 0x2e | 0x36 | 0x3e | 0x26 | 0x64 | 0x65) {
+            p66 |= b[k] == 0x66;
+            rex_w = false;
+        } else if amd64 && (0x40..=0x4f).contains(&b[k]) {
+            rex_w = b[k] & 8 != 0;
+        } else {
+            break;
+        }
+        k += 1;
+    }
+    let op = if *b.get(k)? == 0x0f {
+        k += 1;
+        0x0f00 | *b.get(k)? as u16
+    } else {
+        b[k] as u16
+    };
+    Some(X86Head { p66, rex_w, op, modrm: b.get(k + 1).copied() })
+}
+/// Known-finding classes: exact decode-level predicates.  x86: evaluated at every INSTRUCTION START of the block
+/// (the starts are the instruction addresses of the lifter's own result), on prefixes + opcode + ModRM form.
+/// A64: exact bit pattern of an instruction word.  Each class names the single clause it is known to violate
+/// (`tol_of`): the Coq tie of a tagged case demands that nothing else fails.
+fn kf_tags(i: &Input, res: Option<&BlockTranslationResult>) -> Vec<String> {
+    let mut t: Vec<String> = vec![];
+    let mut add = |s: &str| {
+        if !t.iter().any(|x| x == s) {
+            t.push(s.to_string());
+        }
+    };
     if i.tr <= 1 {
-        // address-size override: effective addresses are built from 16-bit (x86) / 32-bit (amd64) registers and
-        // used as Load/Store indices without extension to the architecture's address width
-        if b.contains(&0x67) {
-            t.push("kf:x86-address-size-prefix".to_string());
-        }
-        // mov Sreg, r/m16: the 16-bit source is assigned to the 32/64-bit scalar that stands for the segment register
-        if b.contains(&0x8e) {
-            t.push("kf:x86-mov-sreg-width".to_string());
-        }
-        // call / jmp with an operand-size override (16-bit target), a REX prefix, or a far pointer operand (ff /3, ff /5):
-        // Branch target narrower / wider than the architecture's address width
-        // (amd64: also a REX prefix before a direct call / jmp, which yields a 32-bit target constant)
-        let pfx = |x: u8| x == 0x66 || (i.tr == 1 && (0x40..=0x4f).contains(&x));
-        let near16 = (0..b.len()).any(|k| pfx(b[k]) && b[k + 1..].iter().take(3).any(|x| matches!(x, 0xe8 | 0xe9 | 0xff)));
-        let far = b.windows(2).any(|w| w[0] == 0xff && w[1] < 0xc0 && matches!((w[1] >> 3) & 7, 3 | 5));
-        if near16 || far {
-            t.push("kf:x86-branch-target-width".to_string());
-        }
-        // amd64 bsf / bsr with both an operand-size override and REX.W: 16-bit result assigned to a 64-bit register
-        if i.tr == 1 && b.contains(&0x66) && b.windows(2).any(|w| w[0] == 0x0f && matches!(w[1], 0xbc | 0xbd)) {
-            t.push("kf:amd64-bsf-bsr-opsize-rexw".to_string());
+        if let Some(r) = res {
+            for (a, _) in r.instructions() {
+                let off = a.wrapping_sub(i.addr) as usize;
+                if off >= i.bytes.len() {
+                    continue;
+                }
+                let h = match x86_head(&i.bytes[off..], i.tr == 1) {
+                    Some(h) => h,
+                    None => continue,
+                };
+                let reg = h.modrm.map(|m| (m >> 3) & 7);
+                let mem = h.modrm.map(|m| m < 0xc0).unwrap_or(false);
+                // mov Sreg, r/m16 (8e /r): the 16-bit source is assigned to the 32/64-bit segment-register scalar
+                if h.op == 0x8e {
+                    add("kf:x86-mov-sreg-width");
+                }
+                // Branch target narrower / wider than the address width: call rel16 (66 e8), x86 call/jmp r/m16
+                // (66 ff /2, 66 ff /4), x86 jmp far m16:32 (ff /5, memory form)
+                if (h.op == 0xe8 && h.p66)
+                    || (i.tr == 0 && h.op == 0xff && h.p66 && matches!(reg, Some(2) | Some(4)))
+                    || (i.tr == 0 && h.op == 0xff && mem && reg == Some(5))
+                {
+                    add("kf:x86-branch-target-width");
+                }
+                // amd64 bsf / bsr with 66 and REX.W: 16-bit result assigned to a 64-bit register
+                if i.tr == 1 && h.p66 && h.rex_w && matches!(h.op, 0x0fbc | 0x0fbd) {
+                    add("kf:amd64-bsf-bsr-opsize-rexw");
+                }
+            }
         }
     }
     if i.tr >= 5 {
-        // A64 words of the SVE encoding group (bits 28..25 = 0010) reach `Expression::add(..).unwrap()` & co. with
-        // operands of different widths
-        if b.chunks(4).any(|w| w.len() == 4 && (u32::from_le_bytes([w[0], w[1], w[2], w[3]]) >> 25) & 0xf == 0b0010) {
-            t.push("kf:a64-sve-operand-widths".to_string());
+        // SVE integer add / sub (immediate, unpredicated): 00100101 size 100 00x 11 sh imm8 Zdn -- bad64 decodes them
+        // as ADD / SUB with a Z register and an immediate; `Expression::add(..).unwrap()` panics on the widths.
+        // Only the first word that is not lifted matters: the panic ends the lift.
+        if i.bytes.chunks(4).any(|w| w.len() == 4 && matches!(u32::from_le_bytes([w[0], w[1], w[2], w[3]]) & 0xff3e_c000, 0x2520_c000 | 0x2522_c000)) {
+            add("kf:a64-sve-operand-widths");
         }
     }
     t
+}
+fn tol_of(tag: &str) -> &'static str {
+    match tag {
+        "kf:x86-mov-sreg-width" | "kf:amd64-bsf-bsr-opsize-rexw" => "TAssignWidth",
+        "kf:x86-branch-target-width" => "TBranchWidth",
+        "kf:a64-sve-operand-widths" => "TPanic",
+        _ => "TPanic",
+    }
+}
+fn tols(kf: &[String]) -> String {
+    let mut v: Vec<&str> = kf.iter().map(|t| tol_of(t)).collect();
+    v.dedup();
+    coq_list(v.into_iter().map(|x| x.to_string()))
 }
 
 fn main() {
@@ -834,9 +972,9 @@ fn main() {
             o.term.clone()
         };
         let case = Case {
-            coq: format!("(KLift {} {} {})", bits, coq_bool(o.relift), term),
+            coq: format!("(KLift {} {} {} {})", bits, coq_bool(o.relift), tols(&o.kf), term),
             descr: format!("{} -> {} {}", i.descr(), o.kind, if o.kind == "panic" { panic_site() } else { String::new() }),
-            tags: vec![TR[i.tr].0.to_string(), o.kind.to_string()],
+            tags: [vec![TR[i.tr].0.to_string(), o.kind.to_string()], o.kf.clone()].concat(),
             nontrivial: o.size > 0,
             key: format!("{:?}", o.hashes),
         };
@@ -847,7 +985,7 @@ fn main() {
     let plan = Plan::new(args.seed, args.n);
     let total = plan.total();
     let exe = std::env::current_exe().unwrap();
-    let workers: u64 = args.extra.get("workers").and_then(|s| s.parse().ok()).unwrap_or(8);
+    let workers: u64 = args.extra.get("workers").and_then(|s| s.parse().ok()).unwrap_or(12);
     let stall = Duration::from_secs(args.extra.get("stall").and_then(|s| s.parse().ok()).unwrap_or(180));
     // contiguous chunks, a few per worker so that the slow segments are spread
     let chunk = ((total + workers * 6 - 1) / (workers * 6)).max(1);
@@ -899,7 +1037,7 @@ fn main() {
             *shape_inputs.entry((i.tr, *h)).or_insert(0) += 1;
         }
         let mut fresh: Vec<u64> = vec![];
-        for (k, h) in cover_keys(&i, &r.kind, r.relift, &r.hashes).into_iter().zip(r.hashes.iter()) {
+        for (k, h) in cover_keys(&i, &r.kind, r.relift, &r.hashes, &r.kf).into_iter().zip(r.hashes.iter()) {
             if seen.insert(k) {
                 fresh.push(*h);
             }
@@ -918,7 +1056,7 @@ fn main() {
             } else {
                 (r.term.clone().unwrap_or_else(|| "LErr".into()), String::new())
             };
-            let kf = kf_tags(&i);
+            let kf = r.kf.clone();
             groups.push(Group { rep: i, term, kind: r.kind.clone(), relift: r.relift, new_shapes: fresh.len(), size: r.size, hashes: r.hashes.clone(), kf, shown });
         }
     }
@@ -935,7 +1073,7 @@ fn main() {
             tags.extend(g.kf.iter().cloned());
             let covered: u64 = g.hashes.iter().map(|h| shape_inputs[&(g.rep.tr, *h)]).min().unwrap_or(1);
             Case {
-                coq: format!("(KLift {} {} {})", bits, coq_bool(g.relift), g.term),
+                coq: format!("(KLift {} {} {} {})", bits, coq_bool(g.relift), tols(&g.kf), g.term),
                 descr: format!(
                     "{} -> {}{} ({} IL instructions; {} shapes first seen here{}; rarest of its shapes occurs in {} inputs)",
                     g.rep.descr(), g.kind,
@@ -962,7 +1100,7 @@ fn main() {
         header,
         "ck",
         &cases,
-        16,
+        8,
         serde_json::json!({
             "inputs_lifted": total, "lifts": total * 2, "distinct_shapes": cases.len(),
             "segments": {"corpus": per_seg[0], "mips_sweep": per_seg[1], "ppc_sweep": per_seg[2], "a64_sweep": per_seg[3], "x86_sweep": per_seg[4], "random": per_seg[5]},
